@@ -136,7 +136,12 @@ struct Exec {
         if (!ops.is_null()) {                               // operations issued from inside the callback
             for (auto &op : ops) {
                 if (op["o"] == "req") after.push_back(do_request(op, true));
-                else if (op["o"] == "cancel") after.push_back(do_cancel(op, true));
+                else if (op["o"] == "cancel") {
+                    // cancelling a lookup from inside its own callback is outside the property's histories: pick a neighbour
+                    json c = op; int t = c["k"];
+                    if (t == k) c["k"] = k > 1 ? k - 1 : k + 1;
+                    after.push_back(do_cancel(c, true));
+                }
             }
         }
     }
